@@ -1,6 +1,5 @@
-"""Witnesses of the findings recorded for C10 (ids as in findings_proposed/C10.txt / KNOWN_FINDINGS.txt).
-Each returns None when the reader behaves as the property says and a string otherwise (expected while the
-finding is open)."""
+"""Witnesses of the findings recorded for C10 (ids as in findings_proposed/C10.txt / KNOWN_FINDINGS.txt); all of them are
+repaired in the code.  Each returns None when the reader behaves as the property says and a string otherwise."""
 import io
 from fractions import Fraction
 from witnesses import witness
@@ -81,6 +80,14 @@ def _():
     if d2 is None: return f"the writer's output {txt!r} is not read (None returned)"
     ps2 = list(list(d2.get_body())[0])
     if len(ps2) != 1 or ps2[0].get_begin() != 3599999 or ps2[0].get_end() != 3600000: return f"{txt!r} read as {[(p.get_begin(), p.get_end()) for p in ps2]!r}"
+    # both time codes beyond 999 h, hour fields of four and thirteen digits
+    ps[0].set_begin(Fraction(3600000)); ps[0].set_end(Fraction(4444444444444444444, 1000))
+    txt = w.from_model(d)
+    d2 = r.to_model(io.StringIO(txt))
+    if d2 is None: return f"the writer's output {txt!r} is not read (None returned)"
+    ps2 = list(list(d2.get_body())[0])
+    if len(ps2) != 1 or ps2[0].get_begin() != 3600000 or ps2[0].get_end() != Fraction(4444444444444444444, 1000):
+        return f"{txt!r} read as {[(p.get_begin(), p.get_end()) for p in ps2]!r}"
 
 @witness("C10", "srt-hours-three-digits-exact")
 def _():
